@@ -160,7 +160,8 @@ class ACEProcess(interface.Processor):
 
     def _result_lines(
         self,
-        termini: Optional[List[Pattern[str]]] = None
+        termini: Optional[List[Pattern[str]]] = None,
+        partial: bool = False
     ) -> List[str]:
         assert self._p.stdout is not None, 'cannot receive output from ACE'
         next_line = self._p.stdout.readline
@@ -183,6 +184,10 @@ class ACEProcess(interface.Processor):
             # handle it here to avoid potential deadlocks if it gets buffered
             elif s.startswith('NOTE: tsdb run:'):
                 self._read_run_info(s.rstrip())
+            # a line cut short by a dying ACE is not a result line; only
+            # the S-expression decoding can make sense of the fragment
+            elif not partial and not s.endswith('\n'):
+                logger.info('Discarding an incomplete line: %s', s)
             # the rest should be normal result lines
             else:
                 lines.append(s.rstrip())
@@ -238,7 +243,7 @@ class ACEProcess(interface.Processor):
         raise NotImplementedError()
 
     def _tsdb_receive(self) -> interface.Response:
-        lines = self._result_lines()
+        lines = self._result_lines(partial=True)
         response, lines = _make_response(lines, self.run_info)
         # now it should be safe to reopen a closed process (if necessary)
         if self._p.poll() is not None:
@@ -430,7 +435,8 @@ class ACEGenerator(ACEProcess):
 
     def _tsdb_receive(self):
         # with --tsdb-stdout, the notes line is not printed
-        lines = self._result_lines(termini=[re.compile(r'\(:results \.')])
+        lines = self._result_lines(
+            termini=[re.compile(r'\(:results \.')], partial=True)
         response, lines = _make_response(lines, self.run_info)
         line = ' '.join(lines)  # ACE 0.9.24 on Mac puts superfluous newlines
         response = _tsdb_response(response, line)
